@@ -111,6 +111,12 @@ func compareDatesForLetter(value, start, end Date) string {
 	endTime := end.Time().Truncate(24 * time.Hour)
 
 	switch {
+	case valueTime.Equal(startTime) && valueTime.Equal(endTime) && value.IsEndOfRange:
+		// The other range is a single day. The end of this range lines up
+		// with its end rather than its start, otherwise a single day would
+		// not be equal to itself.
+		return "E"
+
 	case valueTime.Equal(startTime):
 		return "e"
 
